@@ -160,6 +160,7 @@ type btEnv struct {
 	roots   int // number of live root containers in the current storage
 	ops     int
 	climit  uint32         // maxCollisionLimitPerDigest in force (255 unless a scenario lowers it)
+	alloc   []atree.SlabID // identifiers the last traced bulk build of a map allocated (batch_fx13c.go)
 	sigs    map[string]int // violations with a stable signature already recorded, per signature
 }
 
@@ -1542,6 +1543,7 @@ func (e *btEnv) mapBatch(kvs []btKV, db atree.DigesterBuilder, newBuilder atree.
 		})
 	e.ops++
 	e.st.Hit("op:mbatch")
+	e.alloc = btAllocated(e.rec.Effs)
 	if err != nil {
 		e.w.L("OBS err:%s", btErrKind(err))
 		e.rejectedBuildCheck(fmt.Sprintf("NewMapFromBatchData(%d pairs)", len(kvs)), err)
@@ -2223,6 +2225,14 @@ func batchStream(cfg *Config) *hx.Stats {
 			e.scenarioMapBuild(n, mode, valProf)
 			seen[fmt.Sprintf("mb/%d/%d/%d/%d", T, mode, valProf, n)] = true
 		}
+		// --- directed (fx13c, sweep s4 p18): the last two data slabs merge; 1, 2, 3 data slabs remain
+		for i := 0; i < 5; i++ {
+			f := 0
+			if i < 3 {
+				f = i + 1
+			}
+			e.scenarioMapMergeProne(f, i == 1 || i == 4)
+		}
 		for i := 0; i < 12; i++ {
 			e.scenarioMapReject(i%6, rng.Intn(5))
 		}
@@ -2246,6 +2256,7 @@ func batchStream(cfg *Config) *hx.Stats {
 		e.scenarioMapCopyNested()
 		st.Programs++
 	}
+	batchCheckRequired(st)
 	st.Ops = e.ops
 	st.TraceLines = w.Lines
 	st.Distinct = len(seen)
